@@ -459,6 +459,103 @@ def check_C11(run):
 
 
 
+def check_C14(run):
+    """Cancellation safety: for every operation of every behaviour and every k, the operation's future
+    is polled k times and dropped; the recorded results and answers (immediately, after further
+    operations and after a restart) are validated by TLC against TraceStore, where a dropped call may
+    have taken effect entirely or not at all; blob files must still parse at the next start."""
+    q = Q(run)
+    se = store.StoreEngine(run)
+    ts = pvts.TraceStoreEngine(run, se)
+    run.build()
+    suites = [
+        dict(name='cancel-1k', consts=dict(Keys='{1}', MaxTs='2', Sizes='{"s", "e4k+"}'), genlen=3 if q else 4,
+             acts=['write', 'delete', 'close_active', 'restore_active', 'create_active', 'fsync'], nkeys=1,
+             sample=(1, 12) if q else (1, 3)),
+        dict(name='cancel-2k', consts=dict(Keys='{1, 2}', MaxTs='2'), genlen=4,
+             acts=['write', 'delete', 'close_active', 'create_active'], nkeys=2, sample=(1, 400) if q else (1, 30)),
+    ]
+    total = 0
+    by_op, polls = {}, {}
+    for s in suites:
+        s = dict(s)
+        nkeys = s.pop('nkeys')
+        r = se.generate(**s)
+        shards = min(NCPU, 12)
+        files = [open(os.path.join(run.work, 'cshard-%s-%d.txt' % (s['name'], i)), 'w') for i in range(shards)]
+        n = 0
+        for line in open(r['out'], errors='replace'):
+            if line.startswith('<<"BEHAVIOUR"'):
+                files[n % shards].write(line)
+                n += 1
+        for f in files:
+            f.close()
+        os.remove(r['out'])
+        procs = []
+        for i in range(shards):
+            h = dict(ks=4 if i % 2 else 8, bloom='small', group=2 if i % 3 else 8, rt='ct' if i % 2 else 'mt', wait=True, seed=run.seed * 100 + i)
+            out = os.path.join(run.work, 'cancel-%s-%d.out' % (s['name'], i))
+            tr = os.path.join(run.work, 'ctrace-%s-%d.ndjson' % (s['name'], i))
+            cmd = [os.path.join(BIN, 'replay'), '--cfg', json.dumps(h), '--nkeys', str(nkeys), '--cancel-out', tr,
+                   '--max-polls', '16' if q else '48']
+            procs.append((subprocess.Popen(cmd, stdin=open(files[i].name), stdout=open(out, 'w'), stderr=open(out + '.err', 'w')), out, tr, h))
+        mism = []
+        for p, out, tr, h in procs:
+            rc = p.wait()
+            ok = False
+            for line in open(out, errors='replace'):
+                if line.startswith('MISMATCH '):
+                    mism.append(json.loads(line[9:]))
+                elif line.startswith('RESULT '):
+                    res = json.loads(line[7:])
+                    ok = True
+                    total += res['executed']
+                    for k, v in res.get('by_plan', {}).items():
+                        by_op[k] = by_op.get(k, 0) + v
+                    for k, v in res.get('polls_to_complete', {}).items():
+                        polls[k + ':' + h['rt']] = max(polls.get(k + ':' + h['rt'], 0), v)
+                    if res.get('sample') and len(run.samples) < 4:
+                        run.samples.append(res['sample'])
+            if rc != 0 or not ok:
+                raise ToolError('cancel replay failed rc=%s (%s)' % (rc, out))
+        run.log('%s: %d behaviours -> %d executions with a dropped future, %d direct findings' % (s['name'], n, total, len(mism)))
+        for rec in mism:
+            m = rec['mismatches'][0]
+            facts = dict(kind=m['kind'], action=m.get('action', ''), sig=rec.get('sig', []), got=str(m.get('got'))[:80])
+            text = '%s: %s -> %s (behaviour: %s)' % (rec.get('fault'), m['kind'], json.dumps(m['got'])[:300], ' '.join(rec.get('sig', [])))
+            kf = match_known('C14', facts)
+            if kf:
+                line = 'KNOWN-FINDING: property=C14 %s: %s' % (kf.get('id', ''), kf.get('what', ''))
+                if line not in run.known:
+                    run.known.append(line)
+            else:
+                run.violation('C14', rec, text)
+
+        def describe(ex, step):
+            hist = ' '.join('%s%s' % (e.get('a', ''), '' if e.get('mode') in (None, 'normal') else '[dropped]') for e in ex if e.get('ev') == 'step')
+            dropped = [e for e in ex if e.get('mode') == 'maybe']
+            da = dropped[0]['a'] if dropped else ''
+            text = ('execution not explained by the specification at step "%s" (%s, result %s/%s): history %s; observed %s'
+                    % (step.get('a'), step.get('mode'), step.get('rt'), step.get('rn'), hist, json.dumps(step.get('obs'))[:400]))
+            return text, dict(kind='store-trace', action=step.get('a', ''), dropped_action=da, mode=step.get('mode', ''))
+
+        from concurrent.futures import ThreadPoolExecutor
+        jobs = [(tr, 'tc-%s-%s' % (s['name'], os.path.basename(tr)[7:-7])) for p, out, tr, h in procs if os.path.getsize(tr) > 0]
+        with ThreadPoolExecutor(max_workers=6) as ex:
+            list(ex.map(lambda j: ts.judge(j[0], j[1], dict(s['consts']), 'C14', describe), jobs))
+        if jobs and not run.violations:
+            ts.negative_control(jobs[0][0], dict(s['consts']), 'neg-cancel-' + s['name'])
+    cov = dict(evaluations=total, distinct_nontrivial=total, dropped_operations=by_op, polls_needed_to_complete=polls,
+               states=ts.states, traces_validated_against_impl=ts.traces, trace_steps=ts.steps,
+               rule='one execution = one TLC-generated behaviour x one operation of it x k (the future is polled k times, with '
+                    'background work advancing between polls, then dropped; k runs up to the number of polls the operation needs); '
+                    'results and answers after every later step and after a restart are validated by TLC against TraceStore '
+                    '(dropped call: entirely or not at all); blob files are re-parsed after the restart')
+    run.assumptions += ['"entirely or not at all" is judged on the data queries, not on accounting (DESIGN 6)',
+                        'suspension points are reached by letting background work advance 400 us between polls; lock-wait points are not forced']
+    return run.finish('fault_enumeration', cov)
+
+
 def check_C16(run):
     """Offline tools: PearlTools gives, for every blob size and every single damage, the allowed outcomes;
     the harness expands each abstract damage into concrete bytes and runs the real tools."""
@@ -531,7 +628,7 @@ def check_C16(run):
 
 
 CHECKS = {'C01': check_C01, 'C02': check_C02, 'C03': check_C03, 'C04': check_C04, 'C07': check_C07, 'C09': check_C09, 'C10': check_C10, 'C11': check_C11,
-          'C12': check_C12, 'C13': check_C13, 'C15': check_C15, 'C16': check_C16}
+          'C12': check_C12, 'C13': check_C13, 'C14': check_C14, 'C15': check_C15, 'C16': check_C16}
 
 
 
